@@ -7,6 +7,7 @@ import json
 import os
 import shutil
 import tempfile
+import zlib
 
 from hypothesis import strategies as st
 
@@ -154,9 +155,10 @@ def run_cli(csv_text, codec, config, blocked, scratch):
     sink = io.StringIO()
     with contextlib.redirect_stdout(sink):
         extra = ([] if blocked else ['--no1014blocking']) + (['--config-file', cfgfile] if cfgfile else [])
-        a1 = [src, '-o', ipm, '--in-encoding', 'utf8', '--out-encoding', codec] + extra
+        dbg = ['--debug'] if zlib.crc32(csv_text.encode('utf8')) % 2 else []      # the tools' own diagnostic switch, half of the runs
+        a1 = [src, '-o', ipm, '--in-encoding', 'utf8', '--out-encoding', codec] + extra + dbg
         mci_csv_to_ipm.cli_run(**vars(mci_csv_to_ipm.cli_parser().parse_args(a1)))      # what cli_entry does with sys.argv
-        a2 = [ipm, '-o', dst, '--in-encoding', codec, '--out-encoding', 'utf8'] + extra
+        a2 = [ipm, '-o', dst, '--in-encoding', codec, '--out-encoding', 'utf8'] + extra + dbg
         rc = mci_ipm_to_csv.cli_run(**vars(mci_ipm_to_csv.cli_parser().parse_args(a2)))
     if rc == -1:
         raise RuntimeError('mci_ipm_to_csv reported a data error: ' + sink.getvalue()[-400:])
@@ -165,7 +167,8 @@ def run_cli(csv_text, codec, config, blocked, scratch):
     if codec in ('latin_1', 'cp500'):
         # the legacy extractor is a second command entry point for the same extraction (cp500 = "ebcdic", latin1 = "ascii")
         dst2 = os.path.join(scratch, 'out2.csv')
-        argv = ['extract', ipm, '-s', 'ebcdic' if codec == 'cp500' else 'ascii', '--csvoutputfile', dst2] + ([] if blocked else ['--no1014blocking'])
+        argv = (['extract', ipm, '-s', 'ebcdic' if codec == 'cp500' else 'ascii', '--csvoutputfile', dst2] + ([] if blocked else ['--no1014blocking'])
+                + (['-d' if len(csv_text) % 3 else '-v'] if dbg else []))
         if cfgfile:
             os.environ['CARDUTIL_CONFIG'] = scratch      # mideu finds cardutil.json through the environment variable
         try:
